@@ -85,6 +85,9 @@ func genParserTrace(r *RNG, tier string, o ptOpts) *Trace {
 	if class == "medium" || class == "large" {
 		pg.nOps = pg.nOps * 2
 	}
+	if tier == "thorough" {
+		pg.nOps = pg.nOps * 3 / 2
+	}
 	x := r.Float()
 	switch {
 	case x < o.wrapShare:
